@@ -740,9 +740,10 @@ impl<T: Object> Object for Option<T> {
             Primitive::Null => Ok(None),
             p => match T::from_primitive(p, resolve) {
                 Ok(p) => Ok(Some(p)),
-                // References to non-existing objects ought not to be an error
-                Err(PdfError::NullRef {..}) => Ok(None),
-                Err(PdfError::FreeObject {..}) => Ok(None),
+                // References to non-existing objects ought not to be an error.
+                // The error may arrive wrapped (t!(), cached result of Resolve::get), but not as the
+                // cause of a FromPrimitive: that is a dangling entry *inside* T, which stays an error.
+                Err(e) if e.is_missing_object() => Ok(None),
                 Err(e) if resolve.options().allow_error_in_option => {
                     warn!("ignoring {:?}", e);
                     Ok(None)
